@@ -1008,8 +1008,8 @@ theorem filterCandset_raises (a : CandsetArgs) (fp : Cell → Cell → Except Py
       fp (ls.cell (l.colIdx a.lAttr)) (rs.cell (r.colIdx a.rAttr)) = .error e) :
     filterCandset a fp cpu = .error e := by
   have hV := (validateCandset_ok_iff a c l r).1 hv
-  have hkl : (l.col a.lKey).Nodup := hV.lKeyValid.1
-  have hkr : (r.col a.rKey).Nodup := hV.rKeyValid.1
+  have hkl : (l.col a.lKey).Nodup := hV.lKeyValid.nodup
+  have hkr : (r.col a.rKey).Nodup := hV.rKeyValid.nodup
   have hflat : (chunksFor (candLabelled c) a.nJobs cpu).flatten = candLabelled c :=
     chunksFor_flatten _ _ _ (by rw [candLabelled_length]; exact hlen)
   have hmemc : ∀ ch ∈ chunksFor (candLabelled c) a.nJobs cpu, ∀ x ∈ ch, x.1 ∈ c.rows := by
@@ -1077,9 +1077,9 @@ theorem applyMatcher_nocache_typeErr (a : MatcherArgs) (tk : TokObj) (toks : Tok
     applyMatcher a (some tk) toks sim cpu = .error .typeErr := by
   have hV := (validateMatcher_ok_iff a (some tk) c l r).1 hv
   have hlk : ((matcherLRows a l).map (·.cell ((matcherLProj a).idxOf a.lKey))).Nodup := by
-    rw [matcherLRows_keys]; exact hV.lKeyValid.1
+    rw [matcherLRows_keys]; exact hV.lKeyValid.nodup
   have hrk : ((matcherRRows a r).map (·.cell ((matcherRProj a).idxOf a.rKey))).Nodup := by
-    rw [matcherRRows_keys]; exact hV.rKeyValid.1
+    rw [matcherRRows_keys]; exact hV.rKeyValid.nodup
   have hflat : (chunksFor c.rows a.nJobs cpu).flatten = c.rows := chunksFor_flatten _ _ _ hlen
   have hmem : ∀ ch ∈ chunksFor c.rows a.nJobs cpu, ∀ cr ∈ ch, cr ∈ c.rows := by
     intro ch hch cr hcr
